@@ -1,6 +1,7 @@
 """C03 — shortest-path distance matrices equal true minimum path lengths."""
 import sys
 from common import *  # noqa
+sys.path.insert(0, os.path.join(VERIF, 'translate')); import cores  # noqa: E402
 import dist_common as dc
 
 PID = 'C03'
@@ -20,7 +21,13 @@ def main():
                        "'log' transform: compared with the oracle by tolerance 1e-9 only (no model correspondence)",
                        'charpath/efficiency values compared with the exact rational of the model by tolerance 1e-9',
                        'rout_efficiency: only GErout and Erout (global part) are covered; local efficiencies are out of scope']
+    # T-gen: re-extract the core update steps from /repo's current source (translate/cores.py); the generated
+    # obligations say the extracted IR is the reference program whose interpreter is proved equal to the model
+    ck.cov['cores'] = cores.generate(families=['floyd', 'dijk'])
+    for p_ in ck.cov['cores']['problems']:
+        ck.corr_break('core extractor (translate/cores.py)', p_)
     ok = ck.lean_gate(['BctVerif.Props.C03'], extra_modules=['BctVerif.Model.Dist'])
+    ck.lean_gate([], gen_modules=['BctVerif.Gen.CoresFloyd', 'BctVerif.Gen.CoresDijk'])
     if ck.tier == 'thorough' and ok:
         ck.leanchecker(['BctVerif.Props.C03', 'BctVerif.Model.Dist'])
     rp = json.load(open(ck.replay)) if ck.replay else None
